@@ -193,9 +193,10 @@ def run(S):
     rule_key(S)
     rule_asc(S)
     # every visited border applies the walk's own endpoints (shared with C03): "inside the requested interval"
-    from checks.C03 import rule_lft, rule_flt
+    from checks.C03 import rule_lft, rule_flt, rule_dsc
     rule_lft(S)
     rule_flt(S)
+    rule_dsc(S)
     # the validation primitive itself: a split sends the reader back to the root (shared with C06)
     from checks.C06 import rule_eq
     rule_eq(S)
